@@ -67,4 +67,8 @@ def run(ctx):
             bc = ctx.body(c)
             live = any("OperationRequiresUnlockedPrimaryRole" in v for x in ctx.bodies_of(c) for v in x.fn.vars)
             ctx.ob(f"{ver}|create-proof|locked-primary-rejected", live and bool(bc.ok_exits()), "create_proof transition can reject with OperationRequiresUnlockedPrimaryRole", bc.loc())
+            # every proof of the controlled asset is created behind the `primary role is Unlocked` arm of the state match
+            proofs = call_blocks(bc, r"::create_proof_of_(amount|non_fungibles|all)$|::create_proof\w*$")
+            check_guarded(ctx, f"{ver}|create-proof|only-while-primary-unlocked", bc, proofs,
+                          [G_enum(r"::PrimaryRoleLockingState$", ["Unlocked"])], "creation of a proof of the controlled asset", min_targets=1)
     ctx.assume("the state machine over arbitrary interleavings, and that proposing roles cannot also confirm (role table), are not decided here")
